@@ -99,3 +99,15 @@ chk("C22", "E1", "exploration",
     "deterministic simulation: same harness as C21; per actor instance the oracle derives when a path became known and when lookups finished and checks each answer's kind and virtual-time instant",
     "Seeded exploration with lookup services that decline, succeed (with/without addresses, wrong endpoint), fail or are slow; oracle: Ok only when and as soon as a path is known (immediately if already known), Err only after a lookup finished with no path known, never Err while a path is known or a lookup is still running.",
     "The path-set-never-empties clause under pruning is a pure-function property (C23, n/a) and not re-checked here.")
+chk("C40", "E1", "exploration",
+    "deterministic simulation: real iroh Endpoints (real noq QUIC, rustls, socket actor) and a real Router connected through a seeded in-process datagram network (SimNet: loss, duplication, reordering, delay) behind the custom-transport seam on a virtual clock; tagged-connection oracle over handler invocation and filter decision logs",
+    "Seeded exploration of registered protocol sets, dials from two clients offering one to three protocols (registered, unregistered, several at once) and per-incoming filter verdict scripts (accept/reject/ignore/retry-once/retry-always) under network faults; oracle: every handler invocation's negotiated protocol is the handler's own, every established connection reaches exactly one handler exactly once, nothing offering only unregistered protocols is established or handled, no more handler invocations than accepting filter verdicts (a retried connection only counts when the filter accepted its validated retry), and without faults every dial of a registered protocol succeeds.",
+    "ring's TLS randomness is not seeded (message bytes differ between runs, control flow and sizes do not). netwatch interface monitoring is real OS interaction that the workload does not depend on.")
+chk("C41", "E1", "exploration",
+    "deterministic simulation: real Router + Endpoint over SimNet on a virtual clock; concurrent Router::shutdown callers on clones at seeded virtual instants (incl. identical instants) against slow handler shutdowns and an endpoint closing on its own; state sampled at each return",
+    "Seeded exploration of 1..4 shutdown callers, 1..3 handlers whose shutdown takes 0..3 s of virtual time, optional live connection and optional independent Endpoint::close; oracle at every return of Router::shutdown: every handler's shutdown has completed and the endpoint is closed.",
+    "When the harness itself calls Endpoint::close concurrently, the Router's own Endpoint::close returns at once (close already in progress): in exactly that case the oracle requires only that closing has begun (Endpoint::closed() resolves), otherwise Endpoint::is_closed().")
+chk("C42", "E1", "exploration",
+    "deterministic simulation: two real iroh Endpoints over SimNet (loss, duplication, reordering, delay) on a virtual clock with scripted hook lists on both sides; per-dial protocol names attribute every hook call; packet log of the network is the no-handshake oracle",
+    "Seeded exploration of hook lists (0..3 per side, per-call accept/reject scripts with close codes) and dials (normal, to one's own id, empty protocol name); oracle per dial: hooks of one kind are consulted in list order, each once, stopping at the first reject; a before_connect reject means not established, zero packets sent by the dialer and no after_handshake call; a side holds an established connection only if all its hooks accepted; a listener-side after_handshake reject is observed by the dialer as an application close with exactly the hook's code; all-accepting lists establish (no loss); self-dial and empty protocol name always fail.",
+    "ring's TLS randomness is not seeded. The close-code and must-establish clauses are only asserted in runs without packet loss.")
